@@ -316,6 +316,19 @@ def hand_written_impls():
     return sorted(set(hashes)), sorted(set(eqs))
 
 
+def derived_hash_types():
+    """types of src/*.rs that derive `Hash` (`#[derive(…, Hash, …)]` before a struct / enum)"""
+    out = []
+    for fn in sorted(os.listdir(os.path.join(REPO, "src"))):
+        if not fn.endswith(".rs"):
+            continue
+        code = re.sub(r"//[^\n]*", "", read("src/" + fn))
+        for m in re.finditer(r"#\[derive\(([^)]*)\)\]\s*(?:#\[[^\]]*\]\s*)*(?:pub(?:\([^)]*\))?\s+)?(?:struct|enum)\s+(\w+)", code):
+            if re.search(r"\bHash\b", m.group(1)):
+                out.append((fn, m.group(2)))
+    return sorted(set(out))
+
+
 def lean_chain(chain):
     return "[" + ", ".join(f"({lean_char(p)}, {lean_chars(r)})" for p, r in chain) + "]"
 
@@ -363,6 +376,10 @@ def generate():
     out.append("/-- types with a hand-written `PartialEq` impl: (file, type) -/")
     out.append("def handEq : List (String × String) := [")
     out.append(",\n".join(f'  ("{f}", "{t}")' for f, t in eqs))
+    out.append("]")
+    out.append("/-- types that derive `Hash`: (file, type) -/")
+    out.append("def derivedHash : List (String × String) := [")
+    out.append(",\n".join(f'  ("{f}", "{t}")' for f, t in derived_hash_types()))
     out.append("]")
     out.append("end Complgen.Gen")
     write("Nondet.lean", "\n".join(out) + "\n")
